@@ -175,7 +175,14 @@ func WorkerMain(t *testing.T) {
 	}
 
 	idx := from
+	maxRSS := envU("VERIF_MAX_RSS_MB", 1500) << 20
 	for n := 0; n < maxRuns && time.Now().Before(deadline); n++ {
+		// goroutines of library code that outlive a run stay frozen in its dead bubble together with
+		// what they reference: a process that has grown hands over to a fresh one (the driver
+		// continues at the next index), so that 16 workers never exhaust the machine
+		if n > 0 && rssBytes() > maxRSS {
+			break
+		}
 		seed := DeriveSeed(base, prop, idx)
 		curSeed.Store(seed)
 		os.WriteFile(progress, []byte(fmt.Sprintf("%d %d", idx, seed)), 0o644)
@@ -329,4 +336,18 @@ func ReplayMain(t *testing.T) {
 	}
 	fmt.Printf("REPLAY-CLEAN property=%s (recorded rule %s did not fire)\n", rf.Property, rf.Rule)
 	os.Exit(0)
+}
+
+// rssBytes is the resident set size of this process (0 when unknown).
+func rssBytes() uint64 {
+	b, err := os.ReadFile("/proc/self/statm")
+	if err != nil {
+		return 0
+	}
+	f := strings.Fields(string(b))
+	if len(f) < 2 {
+		return 0
+	}
+	n, _ := strconv.ParseUint(f[1], 10, 64)
+	return n * uint64(os.Getpagesize())
 }
